@@ -139,7 +139,7 @@ func tierDeadline(tier string) time.Duration {
 		}
 	}
 	if tier == "thorough" {
-		return 40 * time.Minute
+		return 60 * time.Minute
 	}
 	return 150 * time.Second
 }
